@@ -101,7 +101,7 @@ func runC08(x *Ctx) {
 				rs := v.Results()
 				dec, _ := paths.CallOf(rs[0])
 				cidc, _ := paths.CallOf(rs[1])
-				if dec == nil || !strings.HasSuffix(dec.Name, ".FromDagCbor") || dec.Args[0].String() != "arg0" ||
+				if dec == nil || dec.String() != x.call(pk+".FromDagCbor", "arg0") ||
 					cidc == nil || cidc.Name != envPkg+"CIDFromBytes" || cidc.Args[0].String() != "arg0" {
 					ok = false
 					detail += fmt.Sprintf("returns %s, %s\n", rs[0], rs[1])
@@ -123,7 +123,7 @@ func runC08(x *Ctx) {
 				rs := v.Results()
 				dec, _ := paths.CallOf(rs[0])
 				cidc, _ := paths.CallOf(rs[1])
-				if dec == nil || !strings.HasSuffix(dec.Name, ".FromDagCborReader") || dec.Args[0].String() != cr ||
+				if dec == nil || dec.String() != x.call(pk+".FromDagCborReader", cr) ||
 					cidc == nil || cidc.Name != "(*"+envPkg+"CIDReader).CID" || cidc.Args[0].String() != cr {
 					ok = false
 					detail += fmt.Sprintf("returns %s, %s\n", rs[0], rs[1])
@@ -149,7 +149,7 @@ func runC08(x *Ctx) {
 			ok := len(sel) > 0
 			for _, v := range sel {
 				rs := v.Results()
-				data := "call[" + tok + "ToDagCbor](recv,arg0)#0"
+				data := x.call(tok+"ToDagCbor", "recv", "arg0") + "#0"
 				if rs[0].String() != data || rs[1].String() != "call["+envPkg+"CIDFromBytes]("+data+")#0" {
 					ok = false
 				}
@@ -162,10 +162,10 @@ func runC08(x *Ctx) {
 			cw := "call[" + envPkg + "NewCIDWriter](arg0)"
 			for _, v := range sel {
 				rs := v.Results()
-				if rs[0].String() != "call[(*"+envPkg+"CIDWriter).CID]("+cw+")#0" {
+				if rs[0].String() != x.call("(*"+envPkg+"CIDWriter).CID", cw)+"#0" {
 					ok = false
 				}
-				if !v.HasFact(eqs("call["+tok+"ToDagCborWriter](recv,"+cw+",arg1)", "const(nil)"), true) {
+				if !v.HasFact(eqs(x.call(tok+"ToDagCborWriter", "recv", cw, "arg1"), "const(nil)"), true) {
 					ok = false
 				}
 			}
